@@ -237,6 +237,27 @@ theorem putOrders_effect (os : List Order) : ∀ (db : DB), (∀ o ∈ os, o.WF)
       rw [DB.putOrders, hrest n hn.2, hother n hn.1]
 
 
+/-- (R) transaction discipline, over the regenerated call table of clientdb's `*DB` methods: no decode call
+(`DeserializeOrder`, `deserializeOrderTlvData`, `deserializeAccount`, `deserializeLocalBatchSnapshot`,
+`ReadElement(s)`, `fetchOrderTX`, …, `bytes.NewReader`) sits in a method body outside a function literal, i.e.
+every decode of bbolt's memory-mapped slices happens inside the transaction closure (or a callback it invokes);
+the read methods the property observes are among the transaction-opening methods. -/
+theorem decode_inside_tx :
+    Store.decodeOutsideTx = [] ∧
+    (["Account", "Accounts", "GetOrder", "GetOrders", "PendingBatchSnapshot", "GetLocalBatchSnapshot",
+      "GetLocalBatchSnapshots", "SidecarBidTemplate"].all fun m => Store.dbTxMethods.contains m) = true := by
+  decide
+
+/-- **re-proposal**: storing a pending snapshot again (same batch id or not) replaces the previous one – what is
+read back, and later finalized, is the last snapshot written. -/
+theorem storePending_last_wins (db : DB) (s1 s2 : Snapshot) (h1 : s1.WF) (h2 : s2.WF)
+    (hown : ∀ p ∈ s2.orders, p.2.WF ∧ db.orders p.1 = some (storeOrder p.2)) :
+    ∃ db1 db2, db.storePending s1 = some db1 ∧ db1.storePending s2 = some db2 ∧
+      db2.pending = .ok s2.projMatched [] := by
+  obtain ⟨b1, hb1, _⟩ := snapshot_roundtrip s1 h1
+  obtain ⟨db2, hs2, hp2, _⟩ := snapshot_db_roundtrip { db with pendingSnapshot := some b1 } s2 h2 hown
+  exact ⟨{ db with pendingSnapshot := some b1 }, db2, by simp [DB.storePending, hb1], hs2, hp2⟩
+
 /-! ## the defect that was repaired -/
 
 /-- the base encoding really loses terms: a concrete well-formed ask whose projection differs -/
